@@ -29,11 +29,11 @@ func C14(r *core.Report) {
 	decodeTargetsAreFresh(r, "C14.R8")
 	c14VerifyHashIsAFunctionOfItsArguments(r)
 	c14EveryFrameFollowedOnce(r)
-	r.Floor("C14.R10", 2)
+	r.Floor("C14.R10", 1)
 	r.Floor("C14.R9", 2)
 	r.Floor("C14.R8", 1)
 	r.Floor("C14.R7", 2)
-	r.Floor("C14.R6", 6)
+	r.Floor("C14.R6", 3)
 	r.Floor("C14.R1", 4)
 	r.Floor("C14.R2", 2)
 	r.Floor("C14.R3", 4)
@@ -245,7 +245,9 @@ func c14HelperGate(p *core.Prog, f *core.Func, count bool, verified *ast.Expr) (
 			continue
 		}
 		h := p.ByObj[fo.Origin()]
-		if h == nil || h.Body == nil || h.Pkg != f.Pkg || errResultIndex(h) != 0 {
+		// the count gate is looked for in helpers of the same package; the checksum gate also in a method of the frame
+		// itself (frame.VerifyDataHash(payload) in ipldbindcode)
+		if h == nil || h.Body == nil || (h.Pkg != f.Pkg && count) || errResultIndex(h) != 0 {
 			continue
 		}
 		argOf := map[types.Object]ast.Expr{}
@@ -389,7 +391,7 @@ func c14Gates(r *core.Report) {
 					continue
 				}
 				h := p.ByObj[fo.Origin()]
-				if h == nil || h.Body == nil || h.Pkg != cf.Pkg || errResultIndex(h) != 0 {
+				if h == nil || h.Body == nil || errResultIndex(h) != 0 {
 					continue
 				}
 				if hr := c14HashGateIn(p, h); !hr.gated() || hr.verified == nil {
@@ -483,100 +485,137 @@ func c14Order(r *core.Report) {
 	var sortNode *core.GNode
 	var sorted types.Object
 	okCmp := false
+	// where the sort call is looked for: in the collector, and in helpers of the package that receive the collected slice
+	// as their only slice argument and sort it in place (sortFramesByIndex(frames)); for those the call of the helper is
+	// the point at which the slice becomes sorted
+	type sortScan struct {
+		fn     *core.Func
+		node   *core.GNode  // the node of the collector that stands for the sort (nil: the sort call's own node)
+		sorted types.Object // the collector's slice (nil: the sort call's own argument)
+	}
+	scans := []sortScan{{fn: f}}
 	for _, n := range stmtNodes(g) {
 		for _, c := range nodeCalls(n) {
-			nm := core.CalleeName(info, c)
-			var lf *core.Func
-			var lit *ast.FuncLit
-			if (nm == "sort.Slice" || nm == "sort.SliceStable") && len(c.Args) == 2 {
-				l, ok := core.Unparen(c.Args[1]).(*ast.FuncLit)
-				if !ok {
-					continue
-				}
-				lit, lf = l, p.ByLit[l]
-				sortNode = n
-				sorted = core.ObjOf(info, c.Args[0])
-			} else if (nm == "sort.Sort" || nm == "sort.Stable") && len(c.Args) == 1 {
-				// sort.Sort(byIndex(frames)): the order is the Less method of the named slice type
-				conv, ok := core.Unparen(c.Args[0]).(*ast.CallExpr)
-				if !ok || len(conv.Args) != 1 {
-					continue
-				}
-				tv, isT := info.Types[conv.Fun]
-				if !isT || !tv.IsType() {
-					continue
-				}
-				if _, isSl := tv.Type.Underlying().(*types.Slice); !isSl {
-					continue
-				}
-				if sel := types.NewMethodSet(tv.Type).Lookup(f.Pkg.Types, "Less"); sel != nil {
-					if mo, ok := sel.Obj().(*types.Func); ok {
-						lf = p.ByObj[mo.Origin()]
-					}
-				}
-				if lf == nil || lf.Body == nil || lf.ParamObj(1) == nil {
-					continue
-				}
-				sortNode = n
-				sorted = core.ObjOf(info, conv.Args[0])
+			fo := core.Callee(info, c)
+			if fo == nil || len(c.Args) != 1 {
+				continue
 			}
-			if lf != nil {
-				var iP, jP types.Object = lf.ParamObj(0), lf.ParamObj(1)
-				// a comparator that only forwards to a helper:  return less(frames[i], frames[j])
-				if lit != nil && len(lit.Body.List) == 1 {
-					if rs, ok := lit.Body.List[0].(*ast.ReturnStmt); ok && len(rs.Results) == 1 {
-						if hc, ok := core.Unparen(rs.Results[0]).(*ast.CallExpr); ok && len(hc.Args) == 2 {
-							if fo := core.Callee(info, hc); fo != nil {
-								if h := p.ByObj[fo.Origin()]; h != nil && h.Body != nil && h.ParamObj(1) != nil &&
-									core.Mentions(info, hc.Args[0], iP) && !core.Mentions(info, hc.Args[0], jP) &&
-									core.Mentions(info, hc.Args[1], jP) && !core.Mentions(info, hc.Args[1], iP) &&
-									core.Mentions(info, hc.Args[0], sorted) && core.Mentions(info, hc.Args[1], sorted) {
-									lf, iP, jP = h, h.ParamObj(0), h.ParamObj(1)
+			h := p.ByObj[fo.Origin()]
+			ao := core.ObjOf(info, c.Args[0])
+			if h == nil || h.Body == nil || h.Pkg != f.Pkg || h == f || ao == nil || h.ParamObj(0) == nil {
+				continue
+			}
+			if _, isSl := ao.Type().Underlying().(*types.Slice); isSl {
+				scans = append(scans, sortScan{fn: h, node: n, sorted: ao})
+			}
+		}
+	}
+	for _, sc := range scans {
+		info := sc.fn.Pkg.TypesInfo
+		for _, n := range stmtNodes(p.Graph(sc.fn)) {
+			if sortNode != nil && okCmp {
+				break
+			}
+			for _, c := range nodeCalls(n) {
+				nm := core.CalleeName(info, c)
+				var lf *core.Func
+				var lit *ast.FuncLit
+				if sc.node != nil && len(c.Args) >= 1 && core.ObjOf(info, c.Args[0]) != types.Object(sc.fn.ParamObj(0)) {
+					continue // in a helper only the sort of its own parameter counts
+				}
+				if (nm == "sort.Slice" || nm == "sort.SliceStable") && len(c.Args) == 2 {
+					l, ok := core.Unparen(c.Args[1]).(*ast.FuncLit)
+					if !ok {
+						continue
+					}
+					lit, lf = l, p.ByLit[l]
+					sortNode = n
+					sorted = core.ObjOf(info, c.Args[0])
+				} else if (nm == "sort.Sort" || nm == "sort.Stable") && len(c.Args) == 1 {
+					// sort.Sort(byIndex(frames)): the order is the Less method of the named slice type
+					conv, ok := core.Unparen(c.Args[0]).(*ast.CallExpr)
+					if !ok || len(conv.Args) != 1 {
+						continue
+					}
+					tv, isT := info.Types[conv.Fun]
+					if !isT || !tv.IsType() {
+						continue
+					}
+					if _, isSl := tv.Type.Underlying().(*types.Slice); !isSl {
+						continue
+					}
+					if sel := types.NewMethodSet(tv.Type).Lookup(f.Pkg.Types, "Less"); sel != nil {
+						if mo, ok := sel.Obj().(*types.Func); ok {
+							lf = p.ByObj[mo.Origin()]
+						}
+					}
+					if lf == nil || lf.Body == nil || lf.ParamObj(1) == nil {
+						continue
+					}
+					sortNode = n
+					sorted = core.ObjOf(info, conv.Args[0])
+				}
+				if lf != nil {
+					var iP, jP types.Object = lf.ParamObj(0), lf.ParamObj(1)
+					// a comparator that only forwards to a helper:  return less(frames[i], frames[j])
+					if lit != nil && len(lit.Body.List) == 1 {
+						if rs, ok := lit.Body.List[0].(*ast.ReturnStmt); ok && len(rs.Results) == 1 {
+							if hc, ok := core.Unparen(rs.Results[0]).(*ast.CallExpr); ok && len(hc.Args) == 2 {
+								if fo := core.Callee(info, hc); fo != nil {
+									if h := p.ByObj[fo.Origin()]; h != nil && h.Body != nil && h.ParamObj(1) != nil &&
+										core.Mentions(info, hc.Args[0], iP) && !core.Mentions(info, hc.Args[0], jP) &&
+										core.Mentions(info, hc.Args[1], jP) && !core.Mentions(info, hc.Args[1], iP) &&
+										core.Mentions(info, hc.Args[0], sorted) && core.Mentions(info, hc.Args[1], sorted) {
+										lf, iP, jP = h, h.ParamObj(0), h.ParamObj(1)
+									}
 								}
 							}
 						}
 					}
-				}
-				li := lf.Pkg.TypesInfo
-				lg := p.Graph(lf)
-				// variables bound to GetIndex() of element i / j
-				fromI, fromJ := map[types.Object]bool{}, map[types.Object]bool{}
-				ast.Inspect(lf.Body, func(m ast.Node) bool {
-					if as, ok := m.(*ast.AssignStmt); ok && len(as.Rhs) == 1 {
-						if cc, ok := core.Unparen(as.Rhs[0]).(*ast.CallExpr); ok && strings.HasSuffix(core.CalleeName(li, cc), ".GetIndex") {
-							if core.Mentions(li, cc.Fun, iP) {
-								fromI[core.ObjOf(li, as.Lhs[0])] = true
-							}
-							if core.Mentions(li, cc.Fun, jP) {
-								fromJ[core.ObjOf(li, as.Lhs[0])] = true
+					li := lf.Pkg.TypesInfo
+					lg := p.Graph(lf)
+					// variables bound to GetIndex() of element i / j
+					fromI, fromJ := map[types.Object]bool{}, map[types.Object]bool{}
+					ast.Inspect(lf.Body, func(m ast.Node) bool {
+						if as, ok := m.(*ast.AssignStmt); ok && len(as.Rhs) == 1 {
+							if cc, ok := core.Unparen(as.Rhs[0]).(*ast.CallExpr); ok && strings.HasSuffix(core.CalleeName(li, cc), ".GetIndex") {
+								if core.Mentions(li, cc.Fun, iP) {
+									fromI[core.ObjOf(li, as.Lhs[0])] = true
+								}
+								if core.Mentions(li, cc.Fun, jP) {
+									fromJ[core.ObjOf(li, as.Lhs[0])] = true
+								}
 							}
 						}
+						return true
+					})
+					// some return compares index(i) < index(j) (in either spelling) and none compares them the other way round
+					asc, desc := false, false
+					for _, rn := range lg.Returns() {
+						rs := rn.Ast.(*ast.ReturnStmt)
+						if len(rs.Results) != 1 {
+							continue
+						}
+						be, ok := core.Unparen(rs.Results[0]).(*ast.BinaryExpr)
+						if !ok {
+							continue
+						}
+						xI, xJ := fromI[core.ObjOf(li, be.X)], fromJ[core.ObjOf(li, be.X)]
+						yI, yJ := fromI[core.ObjOf(li, be.Y)], fromJ[core.ObjOf(li, be.Y)]
+						switch {
+						case (be.Op == token.LSS && xI && yJ) || (be.Op == token.GTR && xJ && yI):
+							asc = true
+						case (be.Op == token.GTR && xI && yJ) || (be.Op == token.LSS && xJ && yI),
+							(be.Op == token.LEQ || be.Op == token.GEQ) && ((xI && yJ) || (xJ && yI)):
+							desc = true
+						}
 					}
-					return true
-				})
-				// some return compares index(i) < index(j) (in either spelling) and none compares them the other way round
-				asc, desc := false, false
-				for _, rn := range lg.Returns() {
-					rs := rn.Ast.(*ast.ReturnStmt)
-					if len(rs.Results) != 1 {
-						continue
+					if asc && !desc {
+						okCmp = true
 					}
-					be, ok := core.Unparen(rs.Results[0]).(*ast.BinaryExpr)
-					if !ok {
-						continue
+					if sc.node != nil && sortNode != nil {
+						sortNode, sorted = sc.node, sc.sorted
 					}
-					xI, xJ := fromI[core.ObjOf(li, be.X)], fromJ[core.ObjOf(li, be.X)]
-					yI, yJ := fromI[core.ObjOf(li, be.Y)], fromJ[core.ObjOf(li, be.Y)]
-					switch {
-					case (be.Op == token.LSS && xI && yJ) || (be.Op == token.GTR && xJ && yI):
-						asc = true
-					case (be.Op == token.GTR && xI && yJ) || (be.Op == token.LSS && xJ && yI),
-						(be.Op == token.LEQ || be.Op == token.GEQ) && ((xI && yJ) || (xJ && yI)):
-						desc = true
-					}
-				}
-				if asc && !desc {
-					okCmp = true
 				}
 			}
 		}
@@ -648,48 +687,48 @@ func c14Order(r *core.Report) {
 			}
 		}
 		for _, sf := range scan {
-		sf := sf
-		li := sf.Pkg.TypesInfo
-		ast.Inspect(sf.Body, func(m ast.Node) bool {
-			rs, isR := m.(*ast.RangeStmt)
-			if !isR {
-				return true
-			}
-			if _, isSl := li.TypeOf(rs.X).Underlying().(*types.Slice); !isSl {
-				return true
-			}
-			if o := core.ObjOf(li, rs.X); o == nil || !framesObj[o] {
-				return true
-			}
-			// each iteration adds the current element's bytes at the end of the payload: Buffer.Write(x.Bytes()) or
-			// data = append(data, x.Bytes()...), with x the range value or slice[i] for the range key
-			elem := func(e ast.Expr) bool {
-				c, isC := core.Unparen(e).(*ast.CallExpr)
-				if !isC {
-					return false
-				}
-				sel, isS := core.Unparen(c.Fun).(*ast.SelectorExpr)
-				if !isS || sel.Sel.Name != "Bytes" {
-					return false
-				}
-				if rs.Value != nil && core.ObjOf(li, sel.X) == core.ObjOf(li, rs.Value) {
+			sf := sf
+			li := sf.Pkg.TypesInfo
+			ast.Inspect(sf.Body, func(m ast.Node) bool {
+				rs, isR := m.(*ast.RangeStmt)
+				if !isR {
 					return true
 				}
-				if ix, isIx := core.Unparen(sel.X).(*ast.IndexExpr); isIx && rs.Key != nil && core.ObjOf(li, ix.X) == core.ObjOf(li, rs.X) && core.ObjOf(li, ix.Index) == core.ObjOf(li, rs.Key) {
+				if _, isSl := li.TypeOf(rs.X).Underlying().(*types.Slice); !isSl {
 					return true
 				}
-				return false
-			}
-			for _, c := range core.CallsIn(rs.Body, false) {
-				if strings.HasSuffix(core.CalleeName(li, c), "Buffer).Write") && len(c.Args) == 1 && elem(c.Args[0]) {
-					ok = true
+				if o := core.ObjOf(li, rs.X); o == nil || !framesObj[o] {
+					return true
 				}
-				if core.BuiltinName(li, c) == "append" && len(c.Args) == 2 && c.Ellipsis.IsValid() && elem(c.Args[1]) {
-					ok = true
+				// each iteration adds the current element's bytes at the end of the payload: Buffer.Write(x.Bytes()) or
+				// data = append(data, x.Bytes()...), with x the range value or slice[i] for the range key
+				elem := func(e ast.Expr) bool {
+					c, isC := core.Unparen(e).(*ast.CallExpr)
+					if !isC {
+						return false
+					}
+					sel, isS := core.Unparen(c.Fun).(*ast.SelectorExpr)
+					if !isS || sel.Sel.Name != "Bytes" {
+						return false
+					}
+					if rs.Value != nil && core.ObjOf(li, sel.X) == core.ObjOf(li, rs.Value) {
+						return true
+					}
+					if ix, isIx := core.Unparen(sel.X).(*ast.IndexExpr); isIx && rs.Key != nil && core.ObjOf(li, ix.X) == core.ObjOf(li, rs.X) && core.ObjOf(li, ix.Index) == core.ObjOf(li, rs.Key) {
+						return true
+					}
+					return false
 				}
-			}
-			return true
-		})
+				for _, c := range core.CallsIn(rs.Body, false) {
+					if strings.HasSuffix(core.CalleeName(li, c), "Buffer).Write") && len(c.Args) == 1 && elem(c.Args[0]) {
+						ok = true
+					}
+					if core.BuiltinName(li, c) == "append" && len(c.Args) == 2 && c.Ellipsis.IsValid() && elem(c.Args[1]) {
+						ok = true
+					}
+				}
+				return true
+			})
 		}
 		r.Check(ok, rule, lf.Key+"#concatenates-in-slice-order", posP(r, lf.Pos()), "the frames are concatenated by ranging over the sorted slice", "the frames are not concatenated in the order of the sorted slice")
 	}
